@@ -15,7 +15,11 @@ CHECKS = {
         "the plane of the fit (reported = applied; no exactness hypothesis, so reported residuals and every statistic of "
         "them are the residuals measured through the corrected WCS), and if the fit maps an image source onto its "
         "reference position the corrected WCS lands it there - gWCS (reference plane and default own plane, arbitrary "
-        "bijective pipeline pieces) and FITS (flat sky). Exact recovery of family members by the fitters is C06. "
+        "bijective pipeline pieces) and FITS (flat sky). END TO END: for noise-free references (positively weighted "
+        "points suffice) the model of iter_linear_fit followed by fit2ref's re-centring returns the generating map "
+        "exactly whatever nclip, sigma, clip_accum, centre and weights are (general, shift, proper rscale, rshift; "
+        "align_exact_*), and composed with the corrector models every pixel lands on T of its old tangent-plane position "
+        "(gwcs_align_exact_*, fits_align_exact_general). "
         "Correspondence: the corrector models fed with the REPORTED matrix/shift predict the chart position of every "
         "source after real fit_wcs / align_wcs(match=None) runs over geometries, histories, fitgeoms, weights. Oracle: "
         "status, landing error, reported vs measured rmse, fit_RA/DEC, matrix/shift vs truth.",
@@ -54,7 +58,8 @@ CHECKS = {
  'C04': dict(
    text="Theorems: gWCS - two corrections equal the single (M2M1, M2s1+s2) as STATES, in the own plane and in one fixed "
         "reference plane; identity; inverse; re-wrapping is the identity on every reachable state (bisimulation); exactly "
-        "one v2v3corr frame and the other frames keep their order, by induction over arbitrary histories. FITS (flat "
+        "one v2v3corr frame, the other frames keep their order and the frame list stays valid for _check_wcs_structure "
+        "(so re-wrapping never raises), by induction over arbitrary histories. FITS (flat "
         "sky) - own plane (M1M2, M1s2+s1), reference plane (M2M1, M2s1+s2), identity, inverse. Correspondence: histories "
         "of 0..6 ops compared with the models after EVERY step (chart positions, frame lists, pipeline validity). "
         "Oracle: the laws on real correctors, original_wcs snapshots, independence of copies.",
@@ -128,13 +133,15 @@ CHECKS = {
    ref="5/C09"),
  'C17': dict(
    text="Theorems for every order n over any linearly ordered field: whatever the model of linalg.inv returns is the "
-        "two-sided inverse (and therefore the unique one); a singular matrix can only produce the singular error; "
+        "two-sided inverse (and therefore the unique one); a singular matrix can only produce the singular error; an "
+        "invertible matrix is inverted for every threshold below the smallest pivot of the (threshold-independent) "
+        "elimination (inv_total), and a singular exit on regular input means a non-zero pivot below the threshold; "
         "non-square input is rejected; collinear points make the model of fit_general fail; too few points are "
         "rejected. Correspondence: inv on 9 matrix families of order 1..8 against the model on exact rationals and "
         "on doubles. Oracle: exact Fraction inverse, numpy, residual bound 64 n cond eps, purity, exceptions.",
    note="Modelled rather than verified: real arithmetic (rounding bound and NaN/inf handling are checked by the "
-        "oracle only); the numpy fall-back path of inv is not modelled. inv_total (an invertible matrix never "
-        "triggers the singular exit as eps -> 0) is not yet proved.",
+        "oracle only); the numpy fall-back path of inv is not modelled (the oracle runs on it by toggling the module "
+        "flag). Open finding F13 (fit_general on collinear points with inexact elimination) is reported as KNOWN-FINDING.",
    technique="Lean 4 proof (Gauss-Jordan invariant, induction over elimination steps) + differential correspondence",
    ref="5/C17"),
 }
